@@ -73,6 +73,15 @@ class C03(Check):
                         c.pop('enum')
                     enum_cols.add(c['name'])
             tables.append({'name': nm, 'cols': cols, 'rows': []})
+        # tables of one file share column names (besides uid) with different declarations: scalar here, array there
+        if ntab >= 2 and rng.random() < 0.6:
+            for t in tables[1:]:
+                src = rng.choice(tables[0]['cols'][1:])
+                dst = rng.choice(t['cols'][1:])
+                if src['kind'] != 'enum' and dst['kind'] != 'enum' and src['name'] not in [c['name'] for c in t['cols']]:
+                    dst['name'] = src['name']
+                    if bool(dst['alen']) == bool(src['alen']) and dst['kind'] not in ('enum',):
+                        dst['alen'] = 0 if dst['alen'] else rng.randint(1, 3)
         en = {c['name'] for t in tables for c in t['cols'] if c['kind'] == 'enum'}
         for t in tables:
             for c in t['cols']:
